@@ -161,9 +161,9 @@ const R1_LABELS: [&str; 8] = [
     "",
     "R1 let extraction (sorted prefix, window after)",
     "",
-    "R1 let extraction (sorted prefix, aggregate key)",
+    "R1 let extraction (sorted prefix, computed key)",
     "",
-    "R1 let extraction (sorted prefix, window after, aggregate key)",
+    "R1 let extraction (sorted prefix, window after, computed key)",
 ];
 const R2_LABELS: [&str; 8] = [
     "R2 into extraction",
@@ -171,9 +171,9 @@ const R2_LABELS: [&str; 8] = [
     "",
     "R2 into extraction (sorted prefix, window after)",
     "",
-    "R2 into extraction (sorted prefix, aggregate key)",
+    "R2 into extraction (sorted prefix, computed key)",
     "",
-    "R2 into extraction (sorted prefix, window after, aggregate key)",
+    "R2 into extraction (sorted prefix, window after, computed key)",
 ];
 
 /// true if some step evaluates a window function (whose implicit ORDER BY is the sort in effect)
@@ -209,13 +209,17 @@ fn r1(t: &mut Tape, prog: &mut Prog, into: bool) -> Option<u8> {
         return None;
     }
     // a sort key of the prefix that is the result of an aggregation (finding
-    // C06-sorted-let-aggregate-key-recomputed)
+    // C06-sorted-let-computed-key-recomputed)
     let agg_key = {
         let mut aliases: Vec<String> = vec![];
         fn collect(steps: &[Step], out: &mut Vec<String>) {
             for s in steps {
                 match s {
                     Step::Aggregate(items) => out.extend(items.iter().filter_map(|i| i.alias.clone())),
+                    Step::Derive(items) | Step::Select(items) => {
+                        out.extend(items.iter().filter(|i| !matches!(i.expr, Expr::Col(_))).filter_map(|i| i.alias.clone()))
+                    }
+                    Step::Window { inner, .. } => collect(inner, out),
                     Step::Group { inner, .. } => collect(inner, out),
                     _ => {}
                 }
@@ -382,13 +386,25 @@ fn r3(t: &mut Tape, prog: &mut Prog) -> bool {
 }
 
 /// R6: move the declarations (functions and let-tables) into a module and refer to them by path
-fn r6(prog: &mut Prog) -> bool {
+fn r6(t: &mut Tape, prog: &mut Prog) -> bool {
     let mut any = false;
     for f in prog.funcs.iter_mut() {
         if f.module.is_none() {
             f.module = Some("zmod".into());
             any = true;
         }
+    }
+    // let-tables too (all of them, so that their declaration order is kept inside the module);
+    // half of the time the moved declarations keep referring to each other by their bare names
+    if t.chance(1, 2) && prog.lets.iter().all(|l| l.module.is_none()) && !prog.lets.is_empty() {
+        for l in prog.lets.iter_mut() {
+            l.module = Some("zmod".into());
+            l.into = false;
+        }
+        any = true;
+    }
+    if any && t.chance(1, 2) {
+        prog.surface.bare_in_module = true;
     }
     any
 }
@@ -409,7 +425,7 @@ pub fn gen_case(t: &mut Tape) -> Case {
             2 => r1(t, &mut p, false).map(|s| R1_LABELS[s as usize]),
             3 => r1(t, &mut p, true).map(|s| R2_LABELS[s as usize]),
             4 => r3(t, &mut p).then_some("R3 function abstraction"),
-            _ => r6(&mut p).then_some("R6 move into module"),
+            _ => r6(t, &mut p).then_some("R6 move into module"),
         };
         if let Some(d) = done {
             rewrites.push(d.to_string());
@@ -450,13 +466,13 @@ pub fn check(c: &Case, _known: &Known) -> Outcome {
         Compiled::Sql(s) => s,
         _ => return Outcome::skip("base rejected").class("base_rejected"),
     };
-    let strict = c.rewrites.iter().all(|r| r.starts_with("R4") || r.starts_with("R5"));
+    let strict = c.rewrites.iter().all(|r| r.starts_with("R4") || r.starts_with("R5") || r.starts_with("R6"));
     let sql2 = match util::compile(&src2, d) {
         Compiled::Sql(s) => s,
         Compiled::Err(r) => {
             if strict {
                 return Outcome::fail(
-                    "a filter split/merge or identity insertion makes the program fail to compile",
+                    "a filter split/merge, identity insertion or move into a module makes the program fail to compile",
                     json!({"base": src1, "rewritten": src2, "rewrites": c.rewrites, "error": r}),
                 );
             }
@@ -476,6 +492,11 @@ pub fn check(c: &Case, _known: &Known) -> Outcome {
             let extracted = c.rewrites.iter().any(|r| r.starts_with("R1") || r.starts_with("R2"));
             if e.msg().contains("syntax error") && sql2.contains(" OFFSET ") && _known.is_open("C07-offset-without-limit") {
                 o.verdict = Verdict::Known("C07-offset-without-limit".into(), "an open-ended take separated from its bounding take".into());
+            } else if c.rewrites.iter().any(|r| r.contains("computed key")) && e.msg().contains("no such column") && _known.is_open("C06-sorted-let-computed-key-recomputed") {
+                o.verdict = Verdict::Known(
+                    "C06-sorted-let-computed-key-recomputed".into(),
+                    "let-extraction of a prefix sorted by a computed column".into(),
+                );
             } else if extracted && src1.contains("append") && e.msg().contains("do not have the same number of result columns") && _known.is_open("C01-append-pruning") {
                 // the extraction makes the top input of an append a let-table
                 o.verdict = Verdict::Known("C01-append-pruning".into(), "let-extraction of the top input of an append".into());
@@ -500,7 +521,7 @@ pub fn check(c: &Case, _known: &Known) -> Outcome {
                     "C07-wildcard-let-derive-name".into(),
                     "let-extraction of a wildcard prefix that contains a derive".into(),
                 );
-            } else if extracted && e.msg().contains("no such column") && sql2.contains("ORDER BY") && _known.is_open("C07-sorted-cte-order-by-scope") {
+            } else if c.rewrites.iter().any(|r| r.contains("(sorted prefix")) && e.msg().contains("no such column") && _known.is_open("C07-sorted-cte-order-by-scope") {
                 o.verdict = Verdict::Known(
                     "C07-sorted-cte-order-by-scope".into(),
                     "let-extraction of a sorted prefix that is joined afterwards".into(),
@@ -532,10 +553,10 @@ pub fn check(c: &Case, _known: &Known) -> Outcome {
         out.verdict = Verdict::Known("C01-append-pruning".into(), "let-extraction of the top input of an append".into());
         return out;
     }
-    if differs && c.rewrites.iter().any(|r| r.contains("aggregate key")) && _known.is_open("C06-sorted-let-aggregate-key-recomputed") {
+    if differs && c.rewrites.iter().any(|r| r.contains("computed key")) && _known.is_open("C06-sorted-let-computed-key-recomputed") {
         out.verdict = Verdict::Known(
-            "C06-sorted-let-aggregate-key-recomputed".into(),
-            "let-extraction of a prefix sorted by an aggregation result".into(),
+            "C06-sorted-let-computed-key-recomputed".into(),
+            "let-extraction of a prefix sorted by a computed column".into(),
         );
         return out;
     }
